@@ -71,6 +71,23 @@ class VariableComputationNode(ComputationNode):
                 return l.target
         return None
 
+    def _simple_repr(self):
+        r = super()._simple_repr()
+        # The order links are added by the graph after the node has been built:
+        # they cannot be recomputed from the constructor's arguments.
+        r["order_links"] = simple_repr(
+            [l for l in self.links if l.type in ("next", "previous")]
+        )
+        return r
+
+    @classmethod
+    def _from_repr(cls, r):
+        r = dict(r)
+        order_links = from_repr(r.pop("order_links", []))
+        node = super()._from_repr(r)
+        node.links.extend(order_links)
+        return node
+
     def __eq__(self, other):
         if type(other) != VariableComputationNode:
             return False
